@@ -54,41 +54,44 @@ theorem multiset_next_increments {α : Type} (sets : List (List α)) (hne : sets
     | none => rw [hi] at h; simp at h; simp; omega
     | some p' => rw [hi] at h; simp at h; simp; omega
 
-/-- **Enumeration.**  With at least one set and no empty set the iterator terminates within fuel
-`Πn + 1`, never panics, and yields the combinations of `combos` — the `k`-th item is the digit vector
-of `k` — in that order. -/
-theorem multiset_enumeration {α : Type} (sets : List (List α)) (hne : sets ≠ [])
-    (hpos : ∀ s ∈ sets, s ≠ []) :
+/-- **Enumeration, every input.**  The iterator terminates within fuel `Πn + 1`, never panics, and
+yields the combinations of `combos` — the `k`-th item is the digit vector of `k` — in that order.  Since
+the repair of `MultiSet` (ae1b946) this needs no hypothesis: no set gives the single empty combination,
+an empty set gives none. -/
+theorem multiset_enumeration {α : Type} (sets : List (List α)) :
     toList sets = .ok ((combos (sizesOf sets)).map (pick sets)) :=
-  collect_from sets hne hpos
+  collect_from_all sets
 
 /-- fuel `Πn + 1` suffices, and any larger fuel gives the same list -/
-theorem multiset_fuel_suffices {α : Type} (sets : List (List α)) (hne : sets ≠ [])
-    (hpos : ∀ s ∈ sets, s ≠ []) (fuel : Nat) (h : prod (sizesOf sets) + 1 ≤ fuel) :
+theorem multiset_fuel_suffices {α : Type} (sets : List (List α)) (fuel : Nat)
+    (h : prod (sizesOf sets) + 1 ≤ fuel) :
     collect fuel (MultiSet.from sets) = .ok ((combos (sizesOf sets)).map (pick sets)) := by
   obtain ⟨k, rfl⟩ : ∃ k, fuel = fuelFor (sizesOf sets) + k := ⟨fuel - (prod (sizesOf sets) + 1), by
     simp only [fuelFor]; omega⟩
-  exact collectMap_fuel_mono _ _ _ _ (collect_from sets hne hpos) k
+  exact collectMap_fuel_mono _ _ _ _ (collect_from_all sets) k
 
 /-- the number of combinations is the product of the sizes -/
-theorem multiset_length {α : Type} (sets : List (List α)) (hne : sets ≠ [])
-    (hpos : ∀ s ∈ sets, s ≠ []) :
+theorem multiset_length {α : Type} (sets : List (List α)) :
     ∃ l, toList sets = .ok l ∧ l.length = prod (sizesOf sets) :=
-  ⟨_, collect_from sets hne hpos, by simp [combos_length]⟩
+  ⟨_, collect_from_all sets, by simp [combos_length]⟩
 
-/-- **Index sets** (what the plugin iterates): for `m ≥ 1` axes of sizes `nᵢ ≥ 1` the enumeration has
-length `Πnᵢ`, no index vector twice, every in-range index vector, and the `k`-th one has value `k`. -/
-theorem multiset_index_sets (ns : List Nat) (hne : ns ≠ []) (hpos : ∀ n ∈ ns, 0 < n) :
+/-- a run cut off after `k` calls of `next` (`take(k)`): the first `k` combinations, and the end is
+seen exactly when the product has fewer than `k` elements -/
+theorem multiset_bounded_run {α : Type} (sets : List (List α)) (k : Nat) :
+    takeN k (MultiSet.from sets)
+      = .ok (((combos (sizesOf sets)).map (pick sets)).take k, decide (prod (sizesOf sets) < k)) := by
+  have := takeN_of_collect _ _ _ (collect_from_all sets) k
+  simpa [combos_length] using this
+
+/-- **Index sets** (what the plugin iterates): for axes of sizes `nᵢ` (any number, any sizes) the
+enumeration has length `Πnᵢ`, no index vector twice, every in-range index vector, and the `k`-th one has value `k`. -/
+theorem multiset_index_sets (ns : List Nat) :
     ∃ l, toList (ns.map List.range) = .ok l ∧ l.length = prod ns ∧ l.Nodup ∧
       (∀ c, c ∈ l ↔ inRange ns c = true) ∧
       (∀ k, k < prod ns → ∃ c, l[k]? = some c ∧ val ns c = k) := by
   have hsz : sizesOf (ns.map List.range) = ns := by
     simp [sizesOf, List.map_map, Function.comp_def]
-  have h := collect_from (ns.map List.range) (by simpa using hne) (by
-    intro s hs
-    obtain ⟨n, hn, rfl⟩ := List.mem_map.mp hs
-    have := hpos n hn
-    simp only [ne_eq, List.range_eq_nil]; omega)
+  have h := collect_from_all (ns.map List.range)
   rw [hsz] at h
   have hl : (combos ns).map (pick (ns.map List.range)) = combos ns := by
     conv_rhs => rw [← List.map_id (combos ns)]
@@ -105,45 +108,50 @@ theorem multiset_first_axis_fastest (n : Nat) (ns : List Nat) (k : Nat) (hk : k 
     (combos (n :: ns))[k]? = some (k % n :: digits ns (k / n)) :=
   combos_getElem? (n :: ns) k hk
 
-/-- no set at all: `finished` is never set, the iterator yields `[]` for ever — no fuel suffices -/
-theorem multiset_no_sets_diverges {α : Type} (fuel : Nat) :
-    collect fuel (MultiSet.from ([] : List (List α))) = .diverges :=
-  collect_no_sets_diverges fuel
+/-- no set at all: the single empty combination (before ae1b946: `[]` for ever) -/
+theorem multiset_no_sets_single_empty_combination {α : Type} :
+    toList ([] : List (List α)) = .ok [[]] := by
+  simpa [combos, prod, digits] using collect_from_all ([] : List (List α))
 
-/-- an empty set: `len − 1` wraps around and the first `next` indexes out of bounds -/
-theorem multiset_empty_set_panics {α : Type} (sets : List (List α)) (h : [] ∈ sets) (fuel : Nat) :
-    collect (fuel + 1) (MultiSet.from sets) = .panic "multiset/sets-index" :=
-  collect_empty_set_panics sets h fuel
+/-- an empty set: no combination (before ae1b946: `len − 1` wrapped and the first `next` indexed out
+of bounds) -/
+theorem multiset_empty_set_no_combination {α : Type} (sets : List (List α)) (h : [] ∈ sets) :
+    toList sets = .ok [] := by
+  have hz : prod (sizesOf sets) = 0 := prod_eq_zero_of_mem _ (List.mem_map.mpr ⟨[], h, rfl⟩)
+  simpa [combos, hz] using collect_from_all sets
 
--- non-vacuity: the repository's own 2×1×3 example, a single-option axis in the middle, and the two
--- partial cases
+-- non-vacuity: the repository's own 2×1×3 example, a single-option axis in the middle, the two
+-- boundary cases, a run cut off
 example : toList [[1, 3], [2], [5, 7, 9]]
     = .ok [[1, 2, 5], [3, 2, 5], [1, 2, 7], [3, 2, 7], [1, 2, 9], [3, 2, 9]] := rfl
 example : combos [2, 1, 3] = [[0, 0, 0], [1, 0, 0], [0, 0, 1], [1, 0, 1], [0, 0, 2], [1, 0, 2]] := by
   decide
 example : ∃ l, toList ([3, 1, 2].map List.range) = .ok l ∧ l.length = 6 ∧ [2, 0, 1] ∈ l :=
   ⟨_, rfl, rfl, by decide⟩
-example : toList ([] : List (List Nat)) = .diverges := rfl
-example : toList [[1, 2], ([] : List Nat)] = .panic "multiset/sets-index" := rfl
+example : toList ([] : List (List Nat)) = .ok [[]] := rfl
+example : toList [[1, 2], ([] : List Nat)] = .ok [] := rfl
+example : takeN 2 (MultiSet.from [[7, 8, 9]]) = .ok ([[7], [8]], false) := rfl
+example : takeN 5 (MultiSet.from [[7, 8, 9]]) = .ok ([[7], [8], [9]], true) := rfl
 
 /-! ## The plugin -/
 
 /-- **The code is a total function**: on every JSON value, `GridSearchPlugin::process` (with its
-guard, over the partial `MultiSet`) neither panics nor diverges, and returns `process q`. -/
+guard, with every indexing explicit and the iteration fuelled) neither panics nor diverges, and returns `process q`. -/
 theorem process_never_panics_or_diverges (q : Json) : processO q = .ok (process q) :=
   processO_eq q
 
-/-- The guard is what makes it total (the defect fixed by commit 90097cd, kept visible in the model):
-the enumeration step *without* the guard diverges on a section without array-valued field … -/
-theorem unguarded_no_axis_diverges (initial : Json) :
-    expandO { keys := [], options := [], initial := initial } = .diverges :=
-  collectMap_no_sets_diverges _ initial rfl _
+/-- What the guard (90097cd) is for now that `MultiSet` is total (ae1b946): *without* it a section
+without array-valued field would yield the query once, minus its grid section, … -/
+theorem unguarded_no_axis_yields_the_query_once (initial : Json) :
+    expandO { keys := [], options := [], initial := initial } = .ok [initial] :=
+  collectMap_no_sets _ initial rfl 0
 
-/-- … and panics on a section with an empty array -/
-theorem unguarded_empty_axis_panics (p : Plan) (h : [] ∈ p.options) :
-    expandO p = .panic "multiset/sets-index" := by
+/-- … and a section with an empty array would yield no query at all: the query would vanish without
+a response.  The guard answers both with an error instead. -/
+theorem unguarded_empty_axis_yields_nothing (p : Plan) (h : [] ∈ p.options) :
+    expandO p = .ok [] := by
   have : ([] : List Nat) ∈ p.indices := List.mem_map.mpr ⟨[], h, rfl⟩
-  exact collectMap_empty_set_panics _ _ this _
+  exact collectMap_empty_set _ _ this _
 
 /-- no grid section (in particular: not an object) ⇒ the query passes through unchanged -/
 theorem passthrough_without_grid_section (q : Json) (h : q.get? gridKey = none) :
@@ -542,6 +550,192 @@ example :
     (by simp [grid_expansion exQuery_is_grid_query,
           passthrough_without_grid_section (.obj [("plain", .null)]) (by rfl)])
   simpa [standsFor] using h
+
+
+/-! ### `input_plugin_ops.rs`, every function on every value -/
+
+/-- an error response is exactly `{"request": …, "error": <text>}`, in that order, and carries the
+request it is about -/
+theorem error_response_shape (q : Json) :
+    packageError q = .obj [("request", q), ("error", errorText)] ∧
+    (packageError q).get? "request" = some q := ⟨rfl, rfl⟩
+
+/-- the invariant error carries the query state when the caller still has it, else the placeholder
+`{"error": "unable to display query"}`; the sub-section only goes into the message -/
+theorem invariant_error_request (q sub : Option Json) :
+    packageInvariantError q sub = packageError (q.getD noRequest) := by
+  cases q <;> rfl
+
+/-- every error of the pipeline answers with the request it names -/
+theorem pipe_error_response_carries_request {ε : Type} (e : PipeErr ε) :
+    e.response.get? "request" = some e.request := rfl
+
+/-- **`json_array_flatten_in_place`, every value**: an array becomes the concatenation, in order, of
+what its elements stand for (an array element for its elements, anything else for itself) — exactly
+one level; anything that is not an array is rejected, untouched, and echoed as the request -/
+theorem flatten_in_place_spec {ε : Type} (v : Json) :
+    (∀ xs, v = .arr xs →
+      flattenInPlace (ε := ε) v = .ok (.arr (xs.flatMap standsFor))) ∧
+    (v.isArray = false → flattenInPlace (ε := ε) v = .error (.invariant v)) := by
+  constructor
+  · rintro xs rfl
+    simp only [flattenInPlace]
+    split
+    · next hall => rw [flatMap_standsFor_of_no_array xs hall]
+    · rw [flatten1_eq_flatMap]
+  · intro h
+    cases v <;> simp_all [flattenInPlace, Json.isArray]
+
+/-- only one level is removed: `[[[a]]]` becomes `[[a]]` -/
+example : flattenInPlace (ε := ErrKind) (.arr [.arr [.arr [.null]], .bool true])
+    = .ok (.arr [.arr [.null], .bool true]) := rfl
+
+/-- **`json_array_flatten`, every value**: it returns the elements of an array of objects, as they
+are; an array holding anything else is an invariant error (without the state: it was consumed); a
+value that is not an array is an invariant error that echoes it -/
+theorem final_flatten_spec {ε : Type} (v : Json) :
+    (∀ xs, v = .arr xs → xs.all Json.isObject = true →
+      jsonArrayFlatten (ε := ε) v = .ok xs) ∧
+    (∀ xs, v = .arr xs → xs.all Json.isObject = false →
+      jsonArrayFlatten (ε := ε) v = .error (.invariant noRequest)) ∧
+    (v.isArray = false → jsonArrayFlatten (ε := ε) v = .error (.invariant v)) := by
+  refine ⟨?_, ?_, ?_⟩
+  · rintro xs rfl h; simp [jsonArrayFlatten, h]
+  · rintro xs rfl h; simp [jsonArrayFlatten, h]
+  · intro h; cases v <;> simp_all [jsonArrayFlatten, Json.isArray]
+
+/-- `json_array_op` on a state that is not an array: an invariant error with the placeholder -/
+theorem state_op_rejects_non_array {ε : Type} (op : Json → Except ε Json) (v : Json)
+    (h : v.isArray = false) : jsonArrayOp op v = .error (.invariant noRequest) := by
+  cases v <;> simp_all [jsonArrayOp, Json.isArray]
+
+/-- `json_array_op`: the first query the plugin rejects decides; the response names that query -/
+theorem state_op_first_failure {ε : Type} (op : Json → Except ε Json) (pre post : List Json)
+    (q : Json) (e : ε) (hpre : ∀ p ∈ pre, ∃ r, op p = .ok r) (hq : op q = .error e) :
+    jsonArrayOp op (.arr (pre ++ q :: post)) = .error (.plugin q e) := by
+  have : mapOp op (pre ++ q :: post) = .error (.plugin q e) := by
+    induction pre with
+    | nil => simp [mapOp, hq]
+    | cons p pre ih =>
+      obtain ⟨r, hr⟩ := hpre p (by simp)
+      simp [mapOp, hr, ih (fun x hx => hpre x (by simp [hx]))]
+  simp [jsonArrayOp, this]
+
+/-! ### plugins from configuration (`GridSearchBuilder`, `build_input_plugins`) -/
+
+/-- the builder ignores its parameters and cannot fail -/
+theorem builder_ignores_parameters {ε : Type} (parameters : Json) :
+    gridSearchBuilder (ε := ε) parameters = .ok process := rfl
+
+/-- a plugin section listing `n` grid-search entries — whatever else the entries hold — builds `n`
+grid-search plugins -/
+theorem build_grid_search_entries (cfg : List (String × Json)) (entries : List Json)
+    (hc : lookup cfg "input_plugins" = some (.arr entries))
+    (he : ∀ e ∈ entries, e.get? "type" = some (.str gridKey)) :
+    buildInputPlugins gridOnlyRegistry (.obj cfg) = .ok (List.replicate entries.length process) := by
+  have : ∀ (es : List Json), (∀ e ∈ es, e.get? "type" = some (.str gridKey)) →
+      buildEntries gridOnlyRegistry es = .ok (List.replicate es.length process) := by
+    intro es
+    induction es with
+    | nil => intro _; rfl
+    | cons e r ih =>
+      intro hes
+      have h1 := hes e (by simp)
+      have h2 := ih (fun x hx => hes x (by simp [hx]))
+      simp [buildEntries, h1, gridOnlyRegistry, gridSearchBuilder, h2, List.replicate_succ]
+  simp [buildInputPlugins, Json.get?, hc, this entries he]
+
+/-- malformed sections: no `input_plugins` field, or one that is not an array -/
+theorem build_rejects_malformed_section (config : Json) :
+    (config.get? "input_plugins" = none →
+      buildInputPlugins gridOnlyRegistry config = .error .expectedField) ∧
+    (∀ v, config.get? "input_plugins" = some v → v.isArray = false →
+      buildInputPlugins gridOnlyRegistry config = .error .expectedType) := by
+  constructor
+  · intro h; simp [buildInputPlugins, h]
+  · intro v h hv; cases v <;> simp_all [buildInputPlugins, Json.isArray]
+
+/-- the first malformed entry decides: no `type`, a `type` that is not a string, or an unregistered
+name -/
+theorem build_first_bad_entry (pre post : List Json) (bad : Json)
+    (hpre : ∀ e ∈ pre, e.get? "type" = some (.str gridKey)) :
+    (bad.get? "type" = none →
+      buildEntries gridOnlyRegistry (pre ++ bad :: post) = .error .expectedField) ∧
+    (∀ v, bad.get? "type" = some v → v.isString = false →
+      buildEntries gridOnlyRegistry (pre ++ bad :: post) = .error .expectedType) ∧
+    (∀ t, bad.get? "type" = some (.str t) → t ≠ gridKey →
+      buildEntries gridOnlyRegistry (pre ++ bad :: post) = .error .unknownPlugin) := by
+  induction pre with
+  | nil =>
+    refine ⟨?_, ?_, ?_⟩
+    · intro h; simp [buildEntries, h]
+    · intro v h hv; cases v <;> simp_all [buildEntries, Json.isString]
+    · intro t h ht; simp [buildEntries, h, gridOnlyRegistry, ht]
+  | cons e pre ih =>
+    have h1 := hpre e (by simp)
+    obtain ⟨i1, i2, i3⟩ := ih (fun x hx => hpre x (by simp [hx]))
+    refine ⟨?_, ?_, ?_⟩
+    · intro h; simp [buildEntries, h1, gridOnlyRegistry, gridSearchBuilder, i1 h]
+    · intro v h hv; simp [buildEntries, h1, gridOnlyRegistry, gridSearchBuilder, i2 v h hv]
+    · intro t h ht; simp [buildEntries, h1, gridOnlyRegistry, gridSearchBuilder, i3 t h ht]
+
+/-- a state of queries the plugin leaves alone, none of them an array, is left alone -/
+theorem state_op_identity {ε : Type} (op : Json → Except ε Json) (qs : List Json)
+    (hop : ∀ q ∈ qs, op q = .ok q) (hna : qs.all (fun v => !v.isArray) = true) :
+    jsonArrayOp op (.arr qs) = .ok (.arr qs) := by
+  have h := state_op_concatenates op qs qs (List.map_congr_left hop)
+  rw [flatMap_standsFor_of_no_array qs hna] at h
+  exact h
+
+/-- **listing the plugin several times changes nothing**: a generated query has no grid section
+left, so every further grid-search pass returns the state as it is -/
+theorem repeated_grid_search_is_idempotent {q : Json} {kvs sec : List (String × Json)}
+    (h : GridQuery q kvs sec) (hn : (kvs.map (·.1)).Nodup) (n : Nat) :
+    applyInputPlugins (List.replicate (n + 1) process) q = applyInputPlugins [process] q := by
+  have ho : q.isObject = true := by rw [h.isObj]; rfl
+  let outs := expand (swapRemoveKv kvs gridKey) (axes sec)
+  have hfirst : jsonArrayOp process (.arr [q]) = .ok (.arr outs) := by
+    have hall : outs.all (fun v => !v.isArray) = true := by
+      simp [outs, expand, Json.isArray]
+    simp [jsonArrayOp, mapOp, grid_expansion h, flattenInPlace, Json.isArray, flatten1, outs]
+  have hleave : ∀ o ∈ outs, process o = .ok o := by
+    intro o hoo
+    obtain ⟨c, _, rfl⟩ := List.mem_map.mp hoo
+    apply passthrough_without_grid_section
+    simpa [Json.get?, instanceKv] using output_has_no_grid_key h hn c
+  have hna : outs.all (fun v => !v.isArray) = true := by
+    simp [outs, expand, Json.isArray]
+  have hrest : ∀ m, applyOps (List.replicate m process) (.arr outs) = .ok (.arr outs) := by
+    intro m
+    induction m with
+    | zero => rfl
+    | succ m ih => simp [List.replicate_succ, applyOps, state_op_identity process outs hleave hna, ih]
+  simp only [applyInputPlugins, ho, if_true, List.replicate_succ, applyOps, hfirst, hrest n]
+
+-- non-vacuity: the example query through the plugin listed three times; a section with two entries
+-- and stray parameters; the malformed sections
+example : applyInputPlugins [process, process, process] (.obj exQuery)
+    = applyInputPlugins [process] (.obj exQuery) :=
+  repeated_grid_search_is_idempotent exQuery_is_grid_query (by decide +kernel) 2
+example : (buildInputPlugins gridOnlyRegistry (.obj [("output_plugins", .arr []), ("input_plugins",
+      .arr [.obj [("type", .str "grid_search")],
+            .obj [("anything", .num "1" 0), ("type", .str "grid_search")]])])).map List.length
+    = .ok 2 := by
+  rw [build_grid_search_entries _ _ (by rfl) (by
+    intro e he
+    simp only [List.mem_cons, List.not_mem_nil, or_false] at he
+    rcases he with rfl | rfl <;> rfl)]
+  rfl
+example : buildInputPlugins gridOnlyRegistry (.obj []) = .error .expectedField :=
+  (build_rejects_malformed_section _).1 rfl
+example : buildInputPlugins gridOnlyRegistry (.obj [("input_plugins", .str "grid_search")])
+    = .error .expectedType :=
+  (build_rejects_malformed_section _).2 _ (by rfl) rfl
+example : buildEntries gridOnlyRegistry [.obj [("type", .str "grid_search")], .obj [("type", .str "nope")]]
+    = .error .unknownPlugin :=
+  (build_first_bad_entry [.obj [("type", .str "grid_search")]] [] _ (by
+    intro e he; simp only [List.mem_cons, List.not_mem_nil, or_false] at he; subst he; rfl)).2.2
+    "nope" (by rfl) (by decide)
 
 end C17
 end Compass
